@@ -64,7 +64,8 @@ def gen(rng, tier):
 
             def val(base_val=base_val, unit=unit, off=off):      # noqa: F811
                 v = float(base_val())
-                return v * 1e-9 if unit == 'tiny' else off + v * 1e-3 if unit == 'offset' else v * 1e12
+                # tiny: everything within 1e-8 of zero; offset: fluctuation of relative size 1e-6 on a large offset
+                return v * 1e-11 if unit == 'tiny' else off * (1 + v * 2e-8) if unit == 'offset' else v * 1e12
             dtype = 'float64'
         sigma = rng.choice([0.05, 0.12, 0.125, 0.126, 0.13, 0.15, 0.19, 0.2, 0.22, 0.2499, 0.25, 0.26, 0.3, 0.374, 0.375, 0.4,
                             0.62, 0.625, 0.63, 0.9, round(rng.uniform(0.05, 0.7), 4)])
